@@ -20,7 +20,8 @@ def replay_processor(proc, bit, n, other, enc, hexbm=False, prior=None):
     first = {'MTI': '1240', 'DE%d' % bit: '1234567890123456', 'DE3': '000000'}
     if prior == 'copied-after-use':
         iso8583.loads(iso8583.dumps(first, encoding=enc), encoding=enc)
-    cfgs = copy.deepcopy(config['bit_config'])
+    from . import packaged
+    cfgs = packaged.bit_config_copy()
     if prior == 'same-object':
         iso8583.loads(iso8583.dumps(first, encoding=enc, iso_config=cfgs), encoding=enc, iso_config=cfgs)
     cfgs[str(bit)]['field_processor'] = proc
@@ -55,7 +56,8 @@ def replay_maskdigits(digits, mask):
 def replay_typed(proc, bit, pytype, pan):
     from cardutil import iso8583
     from cardutil.config import config
-    cfgs = copy.deepcopy(config['bit_config'])
+    from . import packaged
+    cfgs = packaged.bit_config_copy()
     cfgs[str(bit)]['field_processor'] = proc
     if pytype:
         cfgs[str(bit)]['field_python_type'] = pytype
